@@ -203,6 +203,16 @@ theorem d_shape_masks_contain_reference_point (s : Impl.Shape α) (ts : List (Tr
   ⟨shapeMask_of_ref_inTri s hd hp,
    (mem_containingIndices s ts i).mpr ⟨t, hi, shapeMask_of_ref_inTri s hd hp⟩⟩
 
+/-- (quantifier domain) `CoordinateArrayTriangles.for_limits_and_scale` produces the full integer box
+    of coordinates `[int(2x_min/s), int(2x_max/s)] × [int(y_min/(h s)) − 1, int(y_max/(h s)) + 1]` with
+    side `s`, zero offsets, not flipped — an instance of the coordinate sets all theorems above
+    quantify over (`trunc` = Python's `int()`). -/
+theorem d_for_limits_and_scale_box (trunc : α → Int) (h xMin xMax yMin yMax scale : α) (k : Int × Int) :
+    k ∈ Impl.coordsForLimits trunc h xMin xMax yMin yMax scale ↔
+      (trunc (2 * xMin / scale) ≤ k.1 ∧ k.1 ≤ trunc (2 * xMax / scale))
+      ∧ (trunc (yMin / (h * scale)) - 1 ≤ k.2 ∧ k.2 ≤ trunc (yMax / (h * scale)) + 1) :=
+  mem_coordsForLimits trunc h xMin xMax yMin yMax scale k
+
 /-! ## non-vacuity: concrete instances over ℚ (h := 7/8) meet the hypotheses used above -/
 
 /-- two triangles sharing an edge (a 4×4 square cut along a diagonal). -/
